@@ -310,6 +310,16 @@ func runC14(r *Result, d *drv.Driver, tier string, seed int64, replay string) {
 				}
 			}
 		}
+		// a well-formed single-item reply for the requested operation whose status is not Success must come back as an error
+		// that IS a protocol error (kmip.Error) carrying the reply's reason and message - empty message included
+		if c.kind == "failed" || c.kind == "pending" {
+			if reason, msg, ok := replyReasonMessage(c.reply); ok && notASuccessReply(c.reply, uint32(c.op)) != "" {
+				want := fmt.Sprintf("failure %d %s", reason, hx(msg))
+				if got != want {
+					r.find(Finding{Kind: "violation", What: "a failure reply was not reported as a protocol error carrying the server's result reason and message", Input: map[string]string{"operation": fmt.Sprint(uint32(c.op)), "reply": hx(c.reply), "kind": c.kind, "discoverVersions": fmt.Sprint(c.dv)}, Expect: want, Actual: got})
+				}
+			}
+		}
 		if strings.HasPrefix(got, "payload ") {
 			if why := notASuccessReply(c.reply, uint32(c.op)); why != "" {
 				r.find(Finding{Kind: "violation", What: "the Client reported success for a reply that " + why, Input: map[string]string{"operation": fmt.Sprint(uint32(c.op)), "reply": hx(c.reply), "kind": c.kind, "discoverVersions": fmt.Sprint(c.dv)}, Expect: "an error", Actual: got})
